@@ -75,9 +75,11 @@ class Recorder:
     def multivariate_normal(self, mean, cov, size=None, **kw):
         mean = np.asarray(mean, dtype=float)
         cov = np.asarray(cov, dtype=float)
-        u = self._u((int(size), len(mean)))
+        n = 1 if size is None else int(np.prod(size))
+        u = self._u((n, len(mean)))
         self.mvn_calls.append(dict(mean=mean.copy(), cov=cov.copy(), size=size, u=u, kw=dict(kw)))
-        return mean[None, :] + np.diag(cov)[None, :] * u
+        out = mean[None, :] + np.diag(cov)[None, :] * u
+        return out[0] if size is None else out
 
     def _resp(self, name, shp_, **args):
         t = self._u(shp_, 0.25, 1.0)
@@ -168,7 +170,7 @@ def sample_line(info, quantity, fitted, n_boot, n_draws, data_ok, MX, MAt, idx, 
     calls = rec.mvn_calls if rec is not None else []
     toks.append(str(len(calls)))
     for c in calls:
-        toks.append(str(int(c['size'])))
+        toks.append(str(int(c['u'].shape[0])))
         toks += [f2bits(v) for v in c['u'].ravel()]
     if rec is not None and rec.resp_calls:
         t = rec.resp_calls[-1]['t']
@@ -257,6 +259,56 @@ def resp_fake(name, args, t):
     return args['mean'] * t + args['scale']
 
 
+def pipeline_expect(info, M, draws, quantity, resp_calls, impl):
+    """NumPy statement of the pipeline behind the coefficient draws: what `sample` must return for `quantity` given the
+    coefficient draws `draws` (n_draws x m), the model matrix `M` at the requested rows and — for 'y' — the recorded call
+    of the response sampler.  Returns (problems, expected array, tolerance array); shape-safe."""
+    problems = []
+    m = info['m']
+    nd = draws.shape[0]
+    with np.errstate(all='ignore'):
+        lp = (M @ draws.T).T
+        mag = (np.abs(M) @ np.abs(draws).T).T
+        tl = 1e-12 * np.abs(lp) + 16 * m * EPS * mag
+        mu = base.link_inv(info['link'], info['levels'], lp)
+        tmu = np.abs(base.link_inv(info['link'], info['levels'], lp + tl) - base.link_inv(info['link'], info['levels'], lp - tl)) + 1e-12 * np.abs(mu)
+        tmu = np.where(np.isnan(tmu), np.inf, tmu)
+    if quantity == 'coef':
+        want_shape, want, tol = (nd, m), draws, 1e-12 * np.abs(draws)
+    elif quantity == 'mu':
+        want_shape, want, tol = (nd, M.shape[0]), mu, tmu
+    else:
+        want_shape = (nd, M.shape[0])
+        want, tol = mu, tmu
+        name, eargs = resp_expected(info, mu)
+        if len(resp_calls) != 1 or resp_calls[0]['name'] != name:
+            problems.append('response sampler: expected one call of numpy.random.%s, got %s' % (name, [c['name'] for c in resp_calls]))
+            want, tol = impl, 0.0
+        else:
+            rc = resp_calls[0]
+            s_ = max(1.0, info['scale'])
+            for key, ev in eargs.items():
+                got = rc['args'].get(key)
+                ev = np.asarray(ev, dtype=float)
+                tk = (tmu * s_ if ev.shape == mu.shape else 0.0) + 1e-12 * np.abs(ev)
+                try:
+                    same = got is not None and close_arr(np.broadcast_to(got, ev.shape), ev, 10 * tk)
+                except ValueError:
+                    same = False
+                if not same:
+                    problems.append('response sampler argument %s differs from the documented parameterisation' % key)
+            if rc['t'].shape == mu.shape:
+                want = resp_fake(name, {k2: np.asarray(v, dtype=float) for k2, v in eargs.items()}, rc['t'])
+                tol = tmu * s_ + 1e-12 * (np.abs(want) + sum(np.abs(np.asarray(v, dtype=float)) for v in eargs.values()))
+            else:
+                problems.append('response sampler called on an array of shape %s, expected %s' % (rc['t'].shape, mu.shape))
+    if impl is None or np.shape(impl) != want_shape:
+        problems.append('shape %s, expected %s' % (shape_of(impl), list(want_shape)))
+    elif not close_arr(impl, want, 10 * np.asarray(tol)):
+        problems.append('returned %s draws differ from the recomputation' % quantity)
+    return problems, want, tol
+
+
 # ------------------------------------------------------------------------------------------------
 # one fitted model, n_bootstraps = 1
 # ------------------------------------------------------------------------------------------------
@@ -288,7 +340,7 @@ def prepare(P, cfg, tier):
             try:
                 out = gam.sample(X, y, quantity=rq['quantity'], n_draws=rq['n_draws'], n_bootstraps=1,
                                  sample_at_X=Xq if rq['at'] else None)
-                res = ('ok', np.asarray(out, dtype=float))
+                res = ('ok', to_arr(out))
             except Exception as e:            # noqa: BLE001
                 res = (type(e).__name__, None)
         items.append(dict(rq=rq, rec=rec, res=res))
@@ -312,7 +364,7 @@ def check_values(ctx, prepared):
                                      p['MAt'] if rq['at'] else None, [0] * rq['n_draws'], [], it['rec']))
             index.append((p, k))
     outs = ctx.driver.run(lines)
-    nfail = 0
+    nfail = ndis = 0
     for (p, k), out in zip(index, outs):
         cfg, info, it = p['cfg'], p['info'], p['items'][k]
         rq, rec, res = it['rq'], it['rec'], it['res']
@@ -337,11 +389,35 @@ def check_values(ctx, prepared):
             continue
         M = p['MAt'] if rq['at'] else p['MX']
         nd = rq['n_draws']
+        impl = res[1]
+        # ---------- generator-independent part: the shape ---------------------------------------------
+        want_shape = (nd, m) if rq['quantity'] == 'coef' else (nd, M.shape[0])
+        if impl is None or impl.shape != want_shape:
+            if nfail < MAX_FAILS:
+                nfail += 1
+                ctx.fail('oracle.pipeline', sig, case, observed=dict(problems=['shape %s, expected %s' % (shape_of(impl), list(want_shape))]),
+                         expected=dict(shape=list(want_shape)), oracle='outputs have shape (n_draws, m) or (n_draws, query rows)')
+            continue
+        # ---------- is the generator protocol the model describes the one in use? ---------------------
+        if not rec.mvn_calls:
+            # the library reached its random generator through another NumPy entry point: the supplied draws were not
+            # used, so neither the Lean pipeline nor the recorded-run oracle can say anything about this call.  The
+            # property is about the *distribution* of the draws, not about the entry point: no failing input here —
+            # the generator-agnostic streams (oracle.seeded-pipeline, sample.moments) decide on the real draws.
+            ctx.count('capture', 'no-multivariate_normal-call')
+            if ndis < MAX_FAILS:
+                ndis += 1
+                ctx.disagree(sg, case, dict(mvn_calls=0, choice_calls=len(rec.choice_calls), randn_calls=len(rec.randn_calls)),
+                             dict(choice=model['choice'], calls=model['calls']),
+                             'numpy.random.multivariate_normal was not called: the generator protocol of Model/Sampling.lean '
+                             '(one MVN call per drawn bootstrap) is not the one in use')
+            continue
+        ctx.count('capture', 'multivariate_normal x%d' % len(rec.mvn_calls))
         # ---------- oracle: NumPy recomputation from the recorded run -----------------------------
         ctx.case('oracle.pipeline', sig, nontrivial=True)
         problems = []
-        if len(rec.choice_calls) != 1 or len(rec.choice_calls[0]['a']) != 1 or rec.choice_calls[0]['size'] != nd \
-                or rec.choice_calls[0]['replace'] is not True:
+        ch = rec.choice_calls
+        if len(ch) != 1 or len(ch[0]['a']) != 1 or ch[0]['size'] != nd or ch[0]['replace'] is not True:
             problems.append('choice must be called once over one bootstrap with size = n_draws, replace=True')
         if len(rec.mvn_calls) != 1:
             problems.append('%d multivariate_normal calls (expected one)' % len(rec.mvn_calls))
@@ -354,65 +430,33 @@ def check_values(ctx, prepared):
                 problems.append('MVN cov is not statistics_[cov] + sqrt(eps) I')
             if c['size'] != nd or c['kw']:
                 problems.append('MVN size is not n_draws')
-        draws = np.vstack([c['mean'][None, :] + np.diag(c['cov'])[None, :] * c['u'] for c in rec.mvn_calls]) if rec.mvn_calls else np.zeros((0, m))
-        with np.errstate(all='ignore'):
-            lp = (M @ draws.T).T
-            mag = (np.abs(M) @ np.abs(draws).T).T
-            tl = 1e-12 * np.abs(lp) + 16 * m * EPS * mag
-            mu = base.link_inv(info['link'], info['levels'], lp)
-            tmu = np.abs(base.link_inv(info['link'], info['levels'], lp + tl) - base.link_inv(info['link'], info['levels'], lp - tl)) + 1e-12 * np.abs(mu)
-            tmu = np.where(np.isnan(tmu), np.inf, tmu)
-        impl = res[1]
-        if rq['quantity'] == 'coef':
-            want_shape, want, tol = (nd, m), draws, 1e-12 * np.abs(draws)
-        elif rq['quantity'] == 'mu':
-            want_shape, want, tol = (nd, M.shape[0]), mu, tmu
+        try:
+            draws = np.vstack([c['mean'][None, :] + np.diag(c['cov'])[None, :] * c['u'] for c in rec.mvn_calls])
+        except Exception:                     # noqa: BLE001  (a call with arguments of another shape)
+            draws = np.zeros((0, m))
+        if draws.shape != (nd, m):
+            problems.append('the multivariate_normal calls return %s rows in total, expected (n_draws, m) = %s' % (list(draws.shape), [nd, m]))
+            want, tol = impl, 0 * impl
         else:
-            want_shape = (nd, M.shape[0])
-            name, eargs = resp_expected(info, mu)
-            if len(rec.resp_calls) != 1 or rec.resp_calls[0]['name'] != name:
-                problems.append('response sampler: expected one call of numpy.random.%s, got %s' % (name, [c['name'] for c in rec.resp_calls]))
-                want, tol = impl, 0 * impl
-            else:
-                rc = rec.resp_calls[0]
-                s_ = max(1.0, info['scale'])
-                for key, ev in eargs.items():
-                    got = rc['args'].get(key)
-                    ev = np.asarray(ev, dtype=float)
-                    tk = (tmu * s_ if ev.shape == mu.shape else 0.0) + 1e-12 * np.abs(ev)
-                    try:
-                        same = got is not None and close_arr(np.broadcast_to(got, ev.shape), ev, 10 * tk)
-                    except ValueError:
-                        same = False
-                    if not same:
-                        problems.append('response sampler argument %s differs from the documented parameterisation' % key)
-                if rc['t'].shape == mu.shape:
-                    want = resp_fake(name, {k2: np.asarray(v, dtype=float) for k2, v in eargs.items()}, rc['t'])
-                    tol = tmu * s_ + 1e-12 * (np.abs(want) + sum(np.abs(np.asarray(v, dtype=float)) for v in eargs.values()))
-                else:
-                    problems.append('response sampler called on an array of shape %s, expected %s' % (rc['t'].shape, mu.shape))
-                    want, tol = mu, tmu
-        if impl.shape != want_shape:
-            problems.append('shape %s, expected %s' % (impl.shape, want_shape))
-        elif not close_arr(impl, want, 10 * tol):
-            problems.append('returned %s draws differ from the recomputation' % rq['quantity'])
-        if problems and nfail < MAX_FAILS:
-            nfail += 1
-            ctx.fail('oracle.pipeline', sig, case, observed=dict(problems=problems, out=impl.tolist()[:3]),
-                     expected=dict(out=np.asarray(want).tolist()[:3]),
-                     oracle='single bootstrap: MVN(coef_, cov + sqrt(eps) I, size=n_draws); mu = g^-1(B(X) draws^T)^T; '
-                            'y = family sampler at the documented parameters; shape (n_draws, m | rows)')
+            pp, want, tol = pipeline_expect(info, M, draws, rq['quantity'], rec.resp_calls, impl)
+            problems += pp
+        if problems:
+            if nfail < MAX_FAILS:
+                nfail += 1
+                ctx.fail('oracle.pipeline', sig, case, observed=dict(problems=problems, out=head(impl)),
+                         expected=dict(out=head(want)),
+                         oracle='single bootstrap: MVN(coef_, cov + sqrt(eps) I, size=n_draws); mu = g^-1(B(X) draws^T)^T; '
+                                'y = family sampler at the documented parameters; shape (n_draws, m | rows)')
             continue
         # ---------- model vs implementation ----------------------------------------------------------
-        if model['choice'] != (len(rec.choice_calls[0]['a']), rec.choice_calls[0]['size']) or \
+        if model['choice'] != (len(ch[0]['a']), ch[0]['size']) or \
                 model['calls'] != [(0, c['size']) for c in rec.mvn_calls] or len(model['args']) != len(rec.mvn_calls) or \
                 any(not (close_arr(a[0], c['mean'], 1e-12 * np.abs(c['mean'])) and close_arr(a[1], c['cov'], 1e-12 * np.abs(c['cov'])))
                     for a, c in zip(model['args'], rec.mvn_calls)):
-            ctx.disagree(sg, case, dict(choice=[len(rec.choice_calls[0]['a']), rec.choice_calls[0]['size']],
-                                        calls=[c['size'] for c in rec.mvn_calls]),
+            ctx.disagree(sg, case, dict(choice=[len(ch[0]['a']), ch[0]['size']], calls=[c['size'] for c in rec.mvn_calls]),
                          dict(choice=model['choice'], calls=model['calls']), 'generator arguments')
         if not close_arr(impl, model['out'], tol):
-            ctx.disagree(sv, case, impl.tolist()[:3], model['out'].tolist()[:3], 'returned draws')
+            ctx.disagree(sv, case, head(impl), head(model['out']), 'returned draws')
 
 
 # ------------------------------------------------------------------------------------------------
@@ -539,9 +583,11 @@ def check_bootstraps(ctx, P, prepared):
         with patched(rec):
             try:
                 out = quiet(gam.sample, p['X'], p['y'], quantity=quantity, n_draws=nd, n_bootstraps=nb)
-                res = ('ok', np.asarray(out, dtype=float))
+                res = ('ok', to_arr(out))
             except Exception as e:              # noqa: BLE001
                 res = (type(e).__name__, None)
+        if res[0] == 'ok' and res[1] is None:
+            res = ('not-an-array', None)
         if res[0] != 'ok':
             ch = rec.choice_calls
             if ch and (len(ch[0]['a']) != nb or ch[0]['size'] != nd):
@@ -553,6 +599,11 @@ def check_bootstraps(ctx, P, prepared):
                          oracle='bootstrap indices are drawn uniformly from {0, …, n_bootstraps - 1}, one per draw')
             else:
                 ctx.count('bootstraps-skipped', res[0])
+            continue
+        if not rec.mvn_calls:
+            ctx.count('capture', 'no-multivariate_normal-call (bootstraps)')
+            ctx.disagree(st, dict(cfg=p['cfg'], n_bootstraps=nb, n_draws=nd, idx=idx), dict(mvn_calls=0), dict(calls='one per drawn bootstrap'),
+                         'numpy.random.multivariate_normal was not called: generator protocol of the model not in use')
             continue
         order = []
         for b in idx:
@@ -628,11 +679,15 @@ def check_statistics(ctx, P, prepared):
         info, gam, cfg = p['info'], p['gam'], p['cfg']
         m = info['m']
         seed = common.random.Random('C17-stats-%d-%d' % (cfg['seed'], cfg['idx'])).randrange(2 ** 31)
-        np.random.seed(seed)
-        D = np.asarray(gam.sample(p['X'], p['y'], quantity='coef', n_draws=N, n_bootstraps=1), dtype=float)
+        rD = real_call(gam, seed, p['X'], p['y'], 'coef', N, None)
+        D = rD[1]
         S = info['cov'] + SQRT_EPS * np.eye(m)
         sig = dict(label=cfg['label'], mix=cfg['mix'], seed=seed, what='coef')
         ctx.case(st, sig, nontrivial=True)
+        if rD[0] != 'ok' or D is None or D.shape != (N, m) or not np.isfinite(D).all():
+            ctx.fail(st, sig, dict(cfg=cfg, seed=seed, n_draws=N), observed=dict(status=rD[0], shape=shape_of(D)),
+                     expected=dict(shape=[N, m]), oracle='a valid sample() call returns finite draws of shape (n_draws, m)')
+            continue
         problems = []
         sd = np.sqrt(np.diag(S))
         zmean = np.abs(D.mean(axis=0) - info['coef']) / (sd / math.sqrt(N))
@@ -654,14 +709,17 @@ def check_statistics(ctx, P, prepared):
                      oracle='coefficient draws ~ N(coef_, cov): 7-sigma mean, 9-sigma covariance entries, 7-sigma chi-square (false alarm < 1e-9)')
         # responses: same seed => same coefficient draws => the means of the y call are the mu call's output
         nd = 4000
-        np.random.seed(seed)
-        MU = np.asarray(gam.sample(p['X'], p['y'], quantity='mu', n_draws=nd, n_bootstraps=1, sample_at_X=p['Xq']), dtype=float)
-        np.random.seed(seed)
-        try:
-            Y = np.asarray(gam.sample(p['X'], p['y'], quantity='y', n_draws=nd, n_bootstraps=1, sample_at_X=p['Xq']), dtype=float)
-        except ValueError as e:
+        rM = real_call(gam, seed, p['X'], p['y'], 'mu', nd, p['Xq'])
+        rY = real_call(gam, seed, p['X'], p['y'], 'y', nd, p['Xq'])
+        MU, Y = rM[1], rY[1]
+        if rY[0].startswith('ValueError'):
             # a simulated mean outside the sampler's domain (e.g. negative mean under the inverse link): NumPy refuses
-            ctx.count('response-stat-skipped', '%s: %s' % (cfg['label'], str(e)[:40]))
+            ctx.count('response-stat-skipped', '%s: %s' % (cfg['label'], rY[0][:52]))
+            continue
+        if rM[0] != 'ok' or rY[0] != 'ok' or MU is None or Y is None or MU.shape != (nd, len(p['Xq'])) or Y.shape != MU.shape:
+            ctx.fail(st, dict(label=cfg['label'], mix=cfg['mix'], seed=seed, what='y'), dict(cfg=cfg, seed=seed, n_draws=nd),
+                     observed=dict(mu=rM[0], y=rY[0], mu_shape=shape_of(MU), y_shape=shape_of(Y)), expected=dict(shape=[nd, len(p['Xq'])]),
+                     oracle='valid sample() calls return arrays of shape (n_draws, query rows)')
             continue
         fam, phi, lv = info['fam'], info['scale'], info['levels']
         with np.errstate(all='ignore'):
@@ -686,6 +744,599 @@ def check_statistics(ctx, P, prepared):
 
 
 # ------------------------------------------------------------------------------------------------
+# generator-agnostic observation: one sample() call under a seeded global generator
+# ------------------------------------------------------------------------------------------------
+def seeded_call(gam, seed, X, y, quantity, n_draws, at):
+    """`gam.sample(..., n_bootstraps=1)` with the NumPy global generator seeded with `seed` and the recording stand-ins
+    (seeded with `seed` too) installed: whatever mixture of numpy.random entry points the library uses, two calls with the
+    same seed on two models in the same fitted state see the same generator results.  Returns ((status, array|None), rec)."""
+    rec = Recorder(seed=seed)
+    np.random.seed(seed % (2 ** 32))
+    with patched(rec):
+        try:
+            out = gam.sample(X, y, quantity=quantity, n_draws=n_draws, n_bootstraps=1, sample_at_X=at)
+            res = ('ok', to_arr(out))
+        except Exception as e:                # noqa: BLE001
+            res = (type(e).__name__ + ': ' + str(e)[:120], None)
+    return res, rec
+
+
+def real_call(gam, seed, X, y, quantity, n_draws, at):
+    """the same with the *real* NumPy generators (nothing patched)"""
+    np.random.seed(seed % (2 ** 32))
+    try:
+        out = gam.sample(X, y, quantity=quantity, n_draws=n_draws, n_bootstraps=1, sample_at_X=at)
+        return ('ok', to_arr(out))
+    except Exception as e:                    # noqa: BLE001
+        return (type(e).__name__ + ': ' + str(e)[:120], None)
+
+
+def step_problems(info, twin, gam, seed, X, y, quantity, n_draws, at):
+    """One call of `gam.sample` decided exactly, whatever generator entry points are used: the coefficient draws of the
+    call are those a *twin* (deep copy of the model taken right after its fit, never used for anything but coefficient
+    draws) returns for quantity='coef' under the same seed; the call must return the pipeline applied to them at the
+    CURRENT contents of `at` (or `X`).  Returns dict(problems, notes, res, rec, M, D, want, tol)."""
+    res, rec = seeded_call(gam, seed, X, y, quantity, n_draws, at)
+    out = dict(problems=[], notes=[], res=res, rec=rec, M=None, D=None, want=None, tol=None)
+    m = info['m']
+    Xc = np.array(X, dtype=float, copy=True)
+    yc = np.array(y, dtype=float, copy=True)
+    atc = Xc if at is None else np.array(at, dtype=float, copy=True)
+    if res[0] != 'ok':
+        out['problems'].append('a valid call raised %s' % res[0])
+        return out
+    resT, recT = seeded_call(twin, seed, Xc, yc, 'coef', n_draws, None)
+    D = resT[1]
+    if resT[0] != 'ok' or D is None or D.shape != (n_draws, m):
+        out['problems'].append("quantity='coef' on the same fitted state: %s, shape %s, expected %s" % (resT[0], shape_of(D), [n_draws, m]))
+        return out
+    try:
+        M = base.dense_rows(twin, atc)
+    except Exception as e:                    # noqa: BLE001
+        out['notes'].append('model matrix at the requested rows not available: %s' % type(e).__name__)
+        return out
+    out['M'], out['D'] = M, D
+    pp, want, tol = pipeline_expect(info, M, D, quantity, rec.resp_calls, res[1])
+    if pp and quantity != 'coef' and res[1] is not None and res[1].shape == (n_draws, M.shape[0]):
+        # which stage?  (diagnosis only, after the observation): the model's own coefficient draws for this seed
+        resM, _ = seeded_call(gam, seed, Xc, yc, 'coef', n_draws, None)
+        if resM[0] == 'ok' and resM[1] is not None and resM[1].shape == D.shape and not close_arr(resM[1], D, 1e-12 * np.abs(D)):
+            pp2, want2, tol2 = pipeline_expect(info, M, resM[1], quantity, rec.resp_calls, res[1])
+            if not pp2:
+                out['notes'].append('coefficient draws depend on the history of the object (differ from those of a copy in the same '
+                                    'fitted state under the same seed); the pipeline behind them is as stated')
+                pp, want, tol = pp2, want2, tol2
+    elif pp and quantity == 'coef' and res[1] is not None and res[1].shape == D.shape:
+        out['notes'].append('coefficient draws depend on the history of the object (differ from those of a copy in the same fitted '
+                            'state under the same seed)')
+        pp = []
+    out['problems'] += pp
+    out['want'], out['tol'] = want, tol
+    return out
+
+
+# ------------------------------------------------------------------------------------------------
+# stress models: badly conditioned coefficient covariances
+# ------------------------------------------------------------------------------------------------
+STRESS_FAMS = ['linear', 'linear', 'linear', 'poisson', 'logistic', 'gamma']
+STRESS_UNITS = [1.0, 1e3, 1e6, 1e6, 1e9, 1e-6]
+STRESS_KINDS = ['gap', 'dup', 'n<m', 'plain', 'const']
+STRESS_LAMS = [0.6, 1e-3, 1e4, 1e8]
+STRESS_FAMINFO = {'linear': ('LinearGAM', 'normal', 'identity'), 'poisson': ('PoissonGAM', 'poisson', 'log'),
+                  'logistic': ('LogisticGAM', 'binomial', 'logit'), 'gamma': ('GammaGAM', 'gamma', 'log')}
+
+
+def stress_cfgs(ctx):
+    """(family, response unit, design, lam): the designs leave directions of the coefficient space weakly identified
+    (a gap in the data, a duplicated feature, fewer rows than coefficients, a nearly constant feature, a huge / tiny
+    penalty), the units scale the covariance by unit^2 — together they reach covariances whose condition number exceeds
+    1 / eps, where the rare branches of any factorisation (Cholesky failure, negative eigenvalues, SVD) are taken."""
+    rng = ctx.subrng('stress')
+    cfgs = []
+    # every design at the largest units, for the family whose covariance scales with the units
+    for kind in STRESS_KINDS:
+        cfgs.append(dict(fam='linear', unit=1e6, kind=kind, lam=rng.choice(STRESS_LAMS)))
+    cfgs.append(dict(fam='linear', unit=1e3, kind=rng.choice(STRESS_KINDS), lam=rng.choice(STRESS_LAMS)))
+    cfgs.append(dict(fam='linear', unit=1.0, kind=rng.choice(STRESS_KINDS), lam=rng.choice(STRESS_LAMS)))
+    cfgs.append(dict(fam='linear', unit=1e-6, kind=rng.choice(STRESS_KINDS), lam=rng.choice(STRESS_LAMS)))
+    for fam in ('poisson', 'logistic', 'gamma'):
+        cfgs.append(dict(fam=fam, unit=rng.choice([1.0, 1e3, 1e6]), kind=rng.choice(STRESS_KINDS), lam=rng.choice(STRESS_LAMS)))
+    extra = 5 if ctx.tier == 'quick' else 150
+    for _ in range(extra):
+        cfgs.append(dict(fam=rng.choice(STRESS_FAMS), unit=rng.choice(STRESS_UNITS), kind=rng.choice(STRESS_KINDS),
+                         lam=rng.choice(STRESS_LAMS)))
+    for i, c in enumerate(cfgs):
+        c['idx'] = i
+        c['seed'] = ctx.seed
+        c['ns'] = rng.choice([8, 12, 20, 40]) if c['kind'] in ('gap', 'plain') else rng.choice([6, 8, 12])
+    return cfgs
+
+
+def stress_data(sc):
+    rs = np.random.RandomState(common.random.Random('C17-stress-%d-%d' % (sc['seed'], sc['idx'])).randrange(2 ** 31))
+    kind = sc['kind']
+    if kind == 'gap':
+        n = 200
+        x0 = np.r_[rs.uniform(0, 0.2, n // 2), rs.uniform(0.8, 1, n - n // 2)]
+        x1 = rs.uniform(-2, 2, n)
+    elif kind == 'dup':
+        n = 60
+        x0 = rs.uniform(0, 1, n)
+        x1 = x0.copy()
+    elif kind == 'n<m':
+        n = 12
+        x0 = rs.uniform(0, 1, n)
+        x1 = rs.uniform(-2, 2, n)
+    elif kind == 'const':
+        n = 80
+        x0 = rs.uniform(0, 1, n)
+        x1 = 1.0 + 2.0 ** -30 * rs.randint(0, 3, n)
+    else:
+        n = 80
+        x0 = rs.uniform(0, 1, n)
+        x1 = rs.uniform(-2, 2, n)
+    X = np.c_[x0, x1]
+    eta = np.sin(6 * x0) + 0.2 * (x1 if kind != 'const' else 0.0)
+    fam, unit = sc['fam'], sc['unit']
+    if fam == 'linear':
+        y = unit * (eta + 0.1 * rs.randn(n))
+    elif fam == 'poisson':
+        y = rs.poisson({1.0: 0.05, 1e3: 5.0}.get(unit, 5000.0) * np.exp(eta)).astype(float)
+    elif fam == 'logistic':
+        y = (eta * {1.0: 1.0, 1e3: 30.0}.get(unit, 1e6) + rs.logistic(size=n) > 0).astype(float)
+    else:
+        y = unit * np.exp(eta) * rs.gamma(6.0, 1 / 6.0, n)
+    Xq = X[rs.randint(0, n, 6)].copy()
+    Xq[:3, 0] = [0.5, 0.25, 1.125]            # inside the gap / between data / beyond the range
+    return X, y, Xq
+
+
+def fit_stress(P, sc):
+    X, y, Xq = stress_data(sc)
+    lam = sc['lam']
+    ns = sc['ns'] if sc['kind'] != 'n<m' else 25
+    terms = P.s(0, n_splines=ns, lam=lam) + (P.s(1, n_splines=8, lam=lam) if sc['kind'] == 'dup' else P.l(1, lam=lam))
+    ctor, fam, link = STRESS_FAMINFO[sc['fam']]
+    gam = getattr(P, ctor)(terms, max_iter=200, tol=1e-6)
+    gam.fit(X, y)
+    return gam, X, y, Xq
+
+
+def stress_info(gam, sc):
+    ctor, fam, link = STRESS_FAMINFO[sc['fam']]
+    return dict(fam=fam, link=link, levels=1.0, coef=np.asarray(gam.coef_, dtype=float).copy(),
+                cov=np.asarray(gam.statistics_['cov'], dtype=float).copy(), scale=float(gam.statistics_['scale']), m=len(gam.coef_))
+
+
+def prepare_stress(P, sc):
+    try:
+        gam, X, y, Xq = quiet(fit_stress, P, sc)
+        info = stress_info(gam, sc)
+    except Exception as e:                    # noqa: BLE001
+        return dict(stress=sc, error=type(e).__name__)
+    if not (np.isfinite(info['coef']).all() and np.isfinite(info['cov']).all() and math.isfinite(info['scale'])):
+        return dict(stress=sc, error='non-finite-statistics')
+    return dict(stress=sc, gam=gam, info=info, X=X, y=y, Xq=Xq)
+
+
+# ------------------------------------------------------------------------------------------------
+# seeded statistical oracle on the real draws (generator-agnostic)
+# ------------------------------------------------------------------------------------------------
+P_TAIL = 2e-9            # two-sided tail probability of every single bound: the 6-sigma level
+
+
+def moment_problems(info, D, M_rows, fseed):
+    """First two moments of the coefficient draws `D` (N x m) and of linear functionals of them against coef_ and
+    S = statistics_['cov'] + sqrt(eps) I.  Functionals: the coordinates, differences of neighbouring coordinates, random
+    directions, rows of the model matrix (fitted / predicted values), extreme eigenvectors of S.  Bounds: the mean of a
+    functional a.D within z(P_TAIL) standard errors of a.coef_; its sample variance within the exact chi-square(N-1)
+    quantiles (P_TAIL) of a'Sa.  `statistics_['cov']` itself carries a rounding error of order eps ||S||: a numerical slack
+    of 64 m eps ||S||_2 |a|^2 is added to every variance (so functionals along numerically null directions of S are
+    bounded from above only)."""
+    import scipy.stats as st
+    coef, m = info['coef'], info['m']
+    N = D.shape[0]
+    S = info['cov'] + SQRT_EPS * np.eye(m)
+    S = (S + S.T) / 2.0
+    rs = np.random.RandomState(fseed)
+    F = [np.eye(m)[j] for j in range(m)]
+    F += [np.eye(m)[j] - np.eye(m)[j + 1] for j in range(m - 1)]
+    F += [rs.randn(m) for _ in range(8)]
+    F += [rs.randint(-1, 2, m).astype(float) for _ in range(4)]
+    F += [np.asarray(r, dtype=float) for r in M_rows if np.shape(r) == (m,)]
+    try:
+        ev, V = np.linalg.eigh(S)
+        F += [V[:, -1], V[:, max(m - 2, 0)], V[:, 0], V[:, m // 2]]
+        nrm = float(max(abs(ev[0]), abs(ev[-1])))
+    except np.linalg.LinAlgError:
+        nrm = float(np.abs(S).sum(axis=1).max())
+    F = np.array(F, dtype=float)
+    with np.errstate(all='ignore'):
+        Z = D @ F.T
+        mean = F @ coef
+        var = np.einsum('ij,jk,ik->i', F, S, F)
+        slack = 64 * m * EPS * nrm * (F ** 2).sum(axis=1)
+        lo = st.chi2.ppf(P_TAIL / 2, N - 1) / (N - 1)
+        hi = st.chi2.isf(P_TAIL / 2, N - 1) / (N - 1)
+        zq = st.norm.isf(P_TAIL / 2)
+        vpos = np.maximum(var, 0.0)
+        vh = Z.var(axis=0, ddof=1)
+        mh = Z.mean(axis=0)
+        se = np.sqrt((vpos + slack) / N)
+        bad_m = ~(np.abs(mh - mean) <= zq * se + 1e-9 * np.abs(mean))
+        bad_hi = ~(vh <= hi * vpos + slack)
+        bad_lo = ~(vh >= lo * vpos - slack)
+    problems = []
+    if not np.isfinite(D).all():
+        problems.append('non-finite coefficient draws')
+        return problems, dict(functionals=len(F))
+    for name, bad in (('mean', bad_m), ('variance too large', bad_hi), ('variance too small', bad_lo)):
+        if bad.any():
+            k = int(np.argmax(bad))
+            if name == 'mean':
+                problems.append('%d of %d functionals: mean of the draws off by %.1f standard errors (first: functional %d, %.6g vs %.6g)'
+                                % (bad.sum(), len(F), float(np.abs(mh[k] - mean[k]) / se[k]), k, mh[k], mean[k]))
+            else:
+                problems.append('%d of %d functionals: %s (first: functional %d, sample variance %.6g, a\'Sa %.6g, allowed [%.4f, %.4f] a\'Sa +- %.3g)'
+                                % (bad.sum(), len(F), name, k, vh[k], var[k], lo, hi, slack[k]))
+    return problems, dict(functionals=len(F), degenerate=int((var <= slack).sum()))
+
+
+def response_problems(info, MU, Y):
+    """standardised response draws (y - mu) / sqrt(scale V(mu)) have mean 0 and variance 1 (7 / 9 sigma, as in
+    sample.statistics).  Returns (problems, n used)."""
+    fam, phi, lv = info['fam'], info['scale'], info['levels']
+    with np.errstate(all='ignore'):
+        V_ = {'normal': np.ones_like(MU), 'binomial': MU * (1 - MU / lv), 'poisson': MU, 'gamma': MU ** 2, 'inv_gauss': MU ** 3}[fam]
+        R = (Y - MU) / np.sqrt(phi * V_)
+        okm = np.isfinite(R) & (V_ > 1e-12) & (np.abs(MU) < 1e8 * max(1.0, math.sqrt(phi)))
+    R = R[okm]
+    if R.size <= 1000:
+        return [], int(R.size)
+    n_ = R.size
+    zm = abs(R.mean()) * math.sqrt(n_)
+    m4 = float(np.mean(R ** 4))
+    zv = abs(float(np.mean(R ** 2)) - 1) / math.sqrt(max(m4 - 1, 1e-3) / n_)
+    if zm > 7 or zv > 9:
+        return ['standardised response draws: mean off by %.1f sigma, variance off by %.1f sigma (mean r^2 = %.4g)' % (zm, zv, float(np.mean(R ** 2)))], n_
+    return [], n_
+
+
+def moments_once(p, N, seed):
+    """all statistical checks of one model under one seed; returns (problems, stats)"""
+    info, gam, X, y, Xq = p['info'], p['gam'], p['X'], p['y'], p['Xq']
+    m = info['m']
+    res = real_call(gam, seed, X, y, 'coef', N, None)
+    D = res[1]
+    if res[0] != 'ok' or D is None or D.shape != (N, m):
+        return ['quantity=coef, n_draws=%d: %s, shape %s (expected %s)' % (N, res[0], shape_of(D), [N, m])], {}
+    try:
+        rows = list(base.dense_rows(gam, np.r_[X[::max(1, len(X) // 6)], Xq]))
+    except Exception:                         # noqa: BLE001
+        rows = []
+    problems, stats = moment_problems(info, D, rows, seed + 1)
+    # the pipeline on the real draws: the same seed gives the same coefficient draws
+    res2 = real_call(gam, seed, X, y, 'coef', N, None)
+    if res2[0] == 'ok' and close_arr(res2[1], D, 0.0):
+        nd = min(N, 4000)
+        Dn = D if nd == N else real_call(gam, seed, X, y, 'coef', nd, None)[1]
+        resm = real_call(gam, seed, X, y, 'mu', nd, Xq)
+        MU = resm[1]
+        try:
+            Mq = base.dense_rows(gam, np.array(Xq, copy=True))
+        except Exception:                     # noqa: BLE001
+            Mq = None
+        if resm[0] != 'ok':
+            problems.append('quantity=mu raised %s' % resm[0])
+        elif Mq is not None and Dn is not None and Dn.shape == (nd, m):
+            pp, want, tol = pipeline_expect(info, Mq, Dn, 'mu', [], MU)
+            problems += ['real draws, same seed: ' + q for q in pp]
+            if not pp:
+                resy = real_call(gam, seed, X, y, 'y', nd, Xq)
+                if resy[0] == 'ok' and resy[1] is not None and resy[1].shape == MU.shape:
+                    rp, used = response_problems(info, MU, resy[1])
+                    problems += rp
+                    stats['response_entries'] = used
+                elif resy[0] == 'ok':
+                    problems.append('quantity=y: shape %s, expected %s' % (shape_of(resy[1]), list(MU.shape)))
+                else:
+                    stats['response_skipped'] = resy[0][:60]       # a simulated mean outside the sampler's domain: NumPy refuses
+    else:
+        stats['not_reproducible'] = True
+    return problems, stats
+
+
+def check_moments(ctx, P, stress, regular):
+    st_ = 'sample.moments'
+    ctx.stream(st_, 'real NumPy generators, seeded: first two moments of N coefficient draws and of linear functionals of them '
+                    '(coordinates, contrasts, random directions, rows of the model matrix, eigenvectors of S) vs coef_ and '
+                    'S = cov + sqrt(eps) I — means within 6 sigma, variances within the exact chi-square quantiles at the 6-sigma '
+                    'level, + 64 m eps ||S|| numerical slack; mu at the same seed = g^-1(B(X) draws^T)^T; standardised response '
+                    'draws; on models with badly conditioned covariances (units 1e-6 … 1e9 x data gap / duplicated feature / '
+                    'n < m / constant feature x lam 1e-3 … 1e8); a failure must repeat under a second seed')
+    N = 4000
+    targets = [p for p in stress if 'info' in p]
+    for p in stress:
+        if 'info' not in p:
+            ctx.count('stress-fit-skipped', '%s/%s: %s' % (p['stress']['fam'], p['stress']['kind'], p['error']))
+    seen = {}
+    for p in regular:
+        if 'info' in p and seen.get(p['cfg']['label'], 0) < (1 if ctx.tier == 'quick' else 3) and p['info']['m'] <= 40:
+            seen[p['cfg']['label']] = seen.get(p['cfg']['label'], 0) + 1
+            targets.append(p)
+    nfail = 0
+    for p in targets:
+        info = p['info']
+        if 'stress' in p:
+            sc = p['stress']
+            sig = dict(stress=True, fam=sc['fam'], unit=sc['unit'], kind=sc['kind'], lam=sc['lam'], ns=sc['ns'])
+            case = dict(stress=sc, n_draws=N)
+            key = 'C17-mom-s-%d-%d' % (sc['seed'], sc['idx'])
+        else:
+            cfg = p['cfg']
+            sig = dict(stress=False, label=cfg['label'], mix=cfg['mix'], lam=cfg['lam'], n=cfg['n'], ns=cfg['ns'])
+            case = dict(cfg=cfg, n_draws=N)
+            key = 'C17-mom-r-%d-%d' % (cfg['seed'], cfg['idx'])
+        seed = common.random.Random(key).randrange(2 ** 31)
+        ctx.case(st_, sig, nontrivial=True)
+        S = info['cov'] + SQRT_EPS * np.eye(info['m'])
+        try:
+            np.linalg.cholesky(S)
+            ctx.count('loaded-covariance', 'cholesky-ok')
+        except np.linalg.LinAlgError:
+            ctx.count('loaded-covariance', 'not-numerically-positive-definite')
+        with np.errstate(all='ignore'):
+            ctx.count('cov-norm', '1e%d' % int(math.floor(math.log10(max(np.abs(S).max(), 1e-300)))))
+        problems, stats = moments_once(p, N, seed)
+        if stats.get('not_reproducible'):
+            ctx.disagree(st_, case, 'two calls under the same numpy.random.seed differ', 'identical',
+                         'the draws do not come from the seeded global NumPy generator (observation point of C17)')
+        if problems:
+            # a concentration bound can fail by chance (about 1e-7 per model): it must fail again with fresh draws
+            again, _ = moments_once(p, N, seed + 7919)
+            if again and nfail < MAX_FAILS:
+                nfail += 1
+                ctx.fail(st_, sig, dict(case, seed=seed), observed=dict(first_seed=problems[:6], second_seed=again[:6]),
+                         expected='coefficient draws ~ N(coef_, cov + sqrt(eps) I); mu = g^-1(B(X) draws); y ~ family(mu)',
+                         oracle='seeded concentration bounds on the real draws (each bound fails by chance with probability 2e-9; '
+                                'confirmed under a second seed)')
+            elif not again:
+                ctx.count('moments-chance-failure', key)
+
+
+# ------------------------------------------------------------------------------------------------
+# the pipeline on whatever generator entry points are in use (exact, same-seed twin)
+# ------------------------------------------------------------------------------------------------
+def check_seeded_pipeline(ctx, models):
+    st_ = 'oracle.seeded-pipeline'
+    ctx.stream(st_, 'generator-agnostic: under one seed, sample(mu | y, sample_at_X) = pipeline applied to what sample(coef) returns '
+                    'for a copy of the model under the same seed (mu = g^-1(B(X) draws^T)^T, documented sampler arguments, shapes)')
+    import copy
+    nfail = 0
+    for p in models:
+        if 'info' not in p:
+            continue
+        info, gam = p['info'], p['gam']
+        if 'stress' in p:
+            sc = p['stress']
+            base_sig = dict(stress=True, fam=sc['fam'], unit=sc['unit'], kind=sc['kind'], lam=sc['lam'], ns=sc['ns'])
+            base_case = dict(stress=sc)
+            rng = common.random.Random('C17-sp-s-%d-%d' % (sc['seed'], sc['idx']))
+        else:
+            cfg = p['cfg']
+            base_sig = dict(stress=False, label=cfg['label'], mix=cfg['mix'], icpt=cfg['fit_intercept'], lam=cfg['lam'], n=cfg['n'], ns=cfg['ns'])
+            base_case = dict(cfg=cfg)
+            rng = common.random.Random('C17-sp-r-%d-%d' % (cfg['seed'], cfg['idx']))
+        try:
+            twin = copy.deepcopy(gam)
+        except Exception as e:                # noqa: BLE001
+            ctx.count('seeded-pipeline-skipped', 'deepcopy: ' + type(e).__name__)
+            continue
+        for quantity, at in (('mu', rng.random() < 0.5), ('y', rng.random() < 0.5)):
+            nd = rng.choice([1, 2, 3, 5])
+            seed = rng.randrange(2 ** 31)
+            sig = dict(base_sig, quantity=quantity, at=at, n_draws=nd)
+            ctx.case(st_, sig, nontrivial=True)
+            r = step_problems(info, twin, gam, seed, p['X'], p['y'], quantity, nd, p['Xq'] if at else None)
+            for note in r['notes']:
+                ctx.disagree(st_, dict(base_case, quantity=quantity, at=at, n_draws=nd, seed=seed), note, 'stateless sample()', 'history dependence')
+            if r['problems']:
+                r2 = step_problems(info, twin, gam, seed, p['X'], p['y'], quantity, nd, p['Xq'] if at else None)
+                if r2['problems'] and nfail < MAX_FAILS:
+                    nfail += 1
+                    ctx.fail(st_, sig, dict(base_case, quantity=quantity, at=at, n_draws=nd, seed=seed),
+                             observed=dict(problems=r['problems'], out=head(r['res'][1])), expected=dict(out=head(r['want'])),
+                             oracle='mu = g^-1(B(requested X) draws^T)^T for the coefficient draws of the same seed; y = family sampler '
+                                    'at the documented parameters; shapes')
+
+
+# ------------------------------------------------------------------------------------------------
+# histories of calls on one fitted model
+# ------------------------------------------------------------------------------------------------
+HIST_LABELS = ['LinearGAM', 'PoissonGAM', 'LogisticGAM', 'GammaGAM', 'LinearGAM.known', 'GAM/normal/log', 'InvGaussGAM.known']
+HIST_MIXES = ['s0+l1', 's0+f2', 'te01', 's0+s1by3', 'cp0+f2d']
+MUTATIONS = ['keep', 'inplace-col', 'inplace-col', 'inplace-rows', 'rebind-equal', 'rebind-new']
+COL_LEVELS = {0: [0.125, 0.5, 0.875, 1.25, -0.25, 0.0, 1.0], 1: [-1.5, 0.0, 1.75, 3.0, -2.0], 2: [0.0, 1.0, 2.0, 3.0], 3: [-1.0, 0.5, 2.0, 0.0]}
+
+
+def gen_history(ctx, h):
+    """one history: a fitted model, three array objects (the training-shaped `X` that is also the query when
+    sample_at_X is None, and two scenario buffers `A`, `B`) and 10-16 steps: sample(quantity, buffer) after a mutation of
+    that buffer (none / a column or the rows overwritten in place / a new object with equal contents / a new object with new
+    contents), predict(buffer), refit (same data / rescaled feature 0, which moves the knots / new responses)"""
+    rng = ctx.subrng('history', h)
+    label = HIST_LABELS[h % len(HIST_LABELS)] if h < len(HIST_LABELS) else rng.choice(HIST_LABELS)
+    cfg = base.make_cfg(ctx.seed, 200000 + h, label, rng.choice(HIST_MIXES), ctx.tier)
+    cfg['n'] = rng.choice([30, 45, 80])
+    cfg['nq'] = rng.choice([4, 6, 9])
+    steps = []
+    for k in range(rng.choice([10, 12, 16])):
+        u = rng.random()
+        if u < 0.72:
+            steps.append(dict(op='sample', quantity=rng.choice(['mu', 'mu', 'y', 'y', 'coef']), buf=rng.choice(['X', 'A', 'A', 'B']),
+                              mut=rng.choice(MUTATIONS), col=rng.choice([0, 1, 2, 3]), lvl=rng.randrange(16), n_draws=rng.choice([1, 2, 3, 5]),
+                              seed=rng.randrange(2 ** 31)))
+        elif u < 0.87:
+            steps.append(dict(op='predict', buf=rng.choice(['X', 'A', 'B'])))
+        else:
+            steps.append(dict(op='refit', kind=rng.choice(['same', 'rescale0', 'new-y'])))
+    return dict(h=h, cfg=cfg, steps=steps)
+
+
+def mutate(buf, step, src, rs):
+    """returns the array object to use for this step (the same object, modified in place, or a new one)"""
+    mut = step['mut']
+    if mut == 'keep':
+        return buf
+    if mut == 'inplace-col':
+        c = step['col']
+        lv = COL_LEVELS[c]
+        buf[:, c] = lv[step['lvl'] % len(lv)]
+        return buf
+    if mut == 'inplace-rows':
+        buf[:] = src[rs.randint(0, len(src), len(buf))]
+        return buf
+    if mut == 'rebind-equal':
+        return np.array(buf, copy=True)
+    return src[rs.randint(0, len(src), len(buf))].copy()
+
+
+def run_history(P, hc):
+    """execute one history on a freshly fitted model; returns a list of per-step records (no verdicts here)"""
+    import copy
+    cfg = hc['cfg']
+    try:
+        gam, X, y, Xq = quiet(base.fit_model, P, cfg)
+        info = fit_info(gam, cfg)
+        twin = copy.deepcopy(gam)
+    except Exception as e:                    # noqa: BLE001
+        return dict(error=type(e).__name__, records=[])
+    rs = np.random.RandomState(common.random.Random('C17-hist-%d-%d' % (cfg['seed'], hc['h'])).randrange(2 ** 31))
+    fitX, fity = X, y
+    bufs = dict(X=np.array(X, copy=True), A=np.array(Xq, copy=True), B=np.array(Xq[::-1], copy=True))
+    ycur = np.array(y, copy=True)
+    records = []
+    sampled = {}          # buffer name -> id of the object at its last use by sample()
+    for k, stp in enumerate(hc['steps']):
+        if not (np.isfinite(info['coef']).all() and np.isfinite(info['cov']).all() and math.isfinite(info['scale'])):
+            break
+        if stp['op'] == 'predict':
+            try:
+                gam.predict(bufs[stp['buf']])
+            except Exception:                 # noqa: BLE001
+                pass
+            continue
+        if stp['op'] == 'refit':
+            Xn, yn = np.array(fitX, copy=True), np.array(fity, copy=True)
+            if stp['kind'] == 'rescale0':
+                Xn[:, 0] = 0.5 * Xn[:, 0] + 0.25
+            elif stp['kind'] == 'new-y':
+                yn = yn[rs.permutation(len(yn))] if cfg['label'] != 'LogisticGAM' else 1.0 - yn
+            try:
+                quiet(gam.fit, Xn, yn)
+                info = fit_info(gam, cfg)
+                twin = copy.deepcopy(gam)
+                ycur = np.array(yn, copy=True)
+            except Exception as e:            # noqa: BLE001
+                records.append(dict(k=k, step=stp, skipped='refit raised ' + type(e).__name__))
+                break
+            continue
+        name = stp['buf']
+        old = bufs[name]
+        new = mutate(old, stp, fitX, rs)
+        pattern = ('first-use' if name not in sampled else
+                   'same-object-' + ('same-contents' if stp['mut'] == 'keep' else 'changed-contents') if new is old and sampled[name] == id(old)
+                   else 'new-object-' + ('equal-contents' if stp['mut'] == 'rebind-equal' else 'new-contents'))
+        bufs[name] = new
+        sampled[name] = id(new)
+        at = None if name == 'X' else new
+        r = step_problems(info, twin, gam, stp['seed'], bufs['X'], ycur, stp['quantity'], stp['n_draws'], at)
+        line = None
+        rec = r['rec']
+        if r['res'][0] == 'ok' and r['M'] is not None and len(rec.mvn_calls) == 1 and rec.mvn_calls[0]['u'].shape == (stp['n_draws'], info['m']):
+            try:
+                MX = base.dense_rows(twin, np.array(bufs['X'], copy=True))
+                line = sample_line(info, stp['quantity'], True, 1, stp['n_draws'], True, MX, None if at is None else r['M'],
+                                   [0] * stp['n_draws'], [], rec)
+            except Exception:                 # noqa: BLE001
+                line = None
+        records.append(dict(k=k, step=stp, pattern=pattern, problems=r['problems'], notes=r['notes'], out=r['res'][1], status=r['res'][0],
+                            want=r['want'], tol=r['tol'], line=line, m=info['m'], captured=len(rec.mvn_calls)))
+    return dict(error=None, records=records, gam=gam, info=info, X=bufs['X'], y=ycur, Xq=bufs['A'], cfg=cfg)
+
+
+def check_history(ctx, P, only=None):
+    st_ = 'sample.history'
+    ctx.stream(st_, 'histories of sample() calls on one model (same array object with contents changed in place, new objects with equal / '
+                    'new contents, X itself as the query, quantities coef / mu / y alternating, interleaved with predict and refits): every '
+                    'call returns the pipeline applied to the CURRENT contents and the CURRENT fit — NumPy oracle on the draws of a same-seed '
+                    'twin, and the per-call Lean model `sample` fed the record of the latest fit and the rows at the current contents')
+    nh = 8 if ctx.tier == 'quick' else 120
+    specs = [gen_history(ctx, h) for h in range(nh)] if only is None else [only]
+    runs = [(hc, run_history(P, hc)) for hc in specs]
+    lines, where = [], []
+    for hc, run_ in runs:
+        for r in run_['records']:
+            if r.get('line'):
+                lines.append(r['line'])
+                where.append(r)
+    outs = ctx.driver.run(lines) if lines else []
+    for r, out in zip(where, outs):
+        r['model'] = parse_sample(out, r['m'])
+    nfail = 0
+    for hc, run_ in runs:
+        cfg = hc['cfg']
+        if run_['error']:
+            ctx.count('history-skipped', '%s: %s' % (cfg['label'], run_['error']))
+            continue
+        confirmed = None
+        for r in run_['records']:
+            if 'skipped' in r:
+                ctx.count('history-skipped', r['skipped'])
+                continue
+            stp = r['step']
+            sig = dict(label=cfg['label'], mix=cfg['mix'], h=hc['h'], k=r['k'], quantity=stp['quantity'], buf=stp['buf'], mut=stp['mut'],
+                       pattern=r['pattern'], n_draws=stp['n_draws'])
+            ctx.case(st_, sig, nontrivial=r['pattern'] != 'first-use', sample=dict(sig=sig) if r['k'] < 2 else None)
+            ctx.count('history-pattern', r['pattern'])
+            ctx.count('history-quantity', stp['quantity'] + ('@' + stp['buf']))
+            case = dict(history=hc, step=r['k'])
+            for note in r['notes']:
+                ctx.disagree(st_, case, note, 'sample() does not depend on earlier calls', 'history dependence')
+            if r['problems']:
+                if confirmed is None:
+                    # re-execute the whole history on a freshly fitted model
+                    again = run_history(P, hc)
+                    confirmed = {q['k'] for q in again['records'] if q.get('problems')}
+                if r['k'] in confirmed and nfail < MAX_FAILS:
+                    nfail += 1
+                    ctx.fail(st_, sig, case, observed=dict(problems=r['problems'], out=head(r['out'])), expected=dict(out=head(r['want'])),
+                             oracle='every sample() call returns g^-1(B(current contents of the requested X) draws^T)^T (resp. the family '
+                                    'sampler at those means, resp. the draws) for the current fit, whatever calls came before')
+                continue
+            mo = r.get('model')
+            if mo is not None and (mo['err'] or not close_arr(r['out'], mo['out'], np.asarray(r['tol']) if r['tol'] is not None else 0.0)):
+                ctx.disagree(st_, case, head(r['out']), mo['err'] or head(mo['out']), 'returned draws vs the per-call model at the current state')
+            elif mo is None:
+                ctx.count('history-model', 'not-fed (generator protocol not captured)')
+        # the distribution of the coefficient draws at the end of the history (stale state in the coefficient stage)
+        if True:
+            p = dict(info=run_['info'], gam=run_['gam'], X=run_['X'], y=run_['y'], Xq=run_['Xq'])
+            if np.isfinite(p['info']['coef']).all() and np.isfinite(p['info']['cov']).all() and p['info']['m'] <= 60:
+                seed = common.random.Random('C17-hist-mom-%d-%d' % (cfg['seed'], hc['h'])).randrange(2 ** 31)
+                sig = dict(label=cfg['label'], mix=cfg['mix'], h=hc['h'], k='end', what='moments')
+                ctx.case(st_, sig, nontrivial=True)
+                problems, stats = moments_once(p, 2000, seed)
+                if problems:
+                    again, _ = moments_once(p, 2000, seed + 7919)
+                    if again and nfail < MAX_FAILS:
+                        nfail += 1
+                        ctx.fail(st_, sig, dict(history=hc, step='end', seed=seed), observed=dict(first_seed=problems[:6], second_seed=again[:6]),
+                                 expected='after any history the coefficient draws are N(coef_, cov + sqrt(eps) I) of the latest fit',
+                                 oracle='seeded concentration bounds on 2000 real draws after the history (confirmed under a second seed)')
+
+
+# ------------------------------------------------------------------------------------------------
 def make_cfgs(ctx):
     cfgs, idx = [], 0
     rng = ctx.subrng('cfgs')
@@ -700,23 +1351,47 @@ def make_cfgs(ctx):
     return cfgs
 
 
-def run(ctx, cfgs=None, force=()):
+def run(ctx, cfgs=None, force=(), stress=None, history=None):
     P = common.import_pygam()
     ctx.extra['rule'] = ('one case = (model class, term mix, intercept, lam, n, n_splines, quantity, sample_at_X given?, n_draws); '
-                         'generators are replaced by recorded closed-form draws, so every case is an exact comparison of the whole pipeline')
+                         'generators are replaced by recorded closed-form draws, so every case is an exact comparison of the whole pipeline; '
+                         'sample.moments: one case = one (family, unit, design, lam, n_splines) model, 4000 real draws; '
+                         'sample.history: one case = one sample() step of a generated history (first uses of a buffer are trivial)')
     ctx.assumptions.append('numpy.random.multivariate_normal(mean, cov, size) returns draws from N(mean, cov); numpy.random.{normal, '
                            'binomial, poisson, gamma, wald} have the documented laws (first two moments tabulated in Model/Dists.lean: moments); '
                            'numpy.random.choice(arange(k), size=n) returns n values < k — trusted library contracts; the distributional '
-                           'claim of C17 rests on them (thorough tier adds seeded concentration checks as supporting evidence)')
+                           'claim of C17 rests on them (sample.moments adds seeded concentration checks on the real draws in both tiers)')
     ctx.partial.append('distributional statement: proved for the pipeline around the generators (arguments handed over, placement of the '
-                       'results); the law of the NumPy generators themselves is assumed')
-    full = cfgs is None
+                       'results); the law of the NumPy generators themselves is assumed.  When the library reaches its generator through '
+                       'another entry point than numpy.random.multivariate_normal the capture streams report the broken correspondence '
+                       '(no failing input) and only the generator-agnostic oracles (oracle.seeded-pipeline: exact, sample.moments: '
+                       'statistical) speak about the draws')
+    ctx.partial.append('call histories: Model/Sampling.lean is a per-call model — `sample` is a function of the fitted record, the model-matrix '
+                       'rows at the contents of X / sample_at_X and the generator results, with no state carried from one call to the next '
+                       '(Props/C17.lean: sample_stateless); sample.history drives it at every step with the record of the latest fit and the '
+                       'rows at the current contents of the array objects.  Not modelled: the refit itself (C01), predict (only interleaved), '
+                       'object identity of the arrays (the model has no notion of it: any dependence on it is a disagreement)')
+    full = cfgs is None and stress is None and history is None
+    if stress is not None:
+        sp = [prepare_stress(P, sc) for sc in stress]
+        check_moments(ctx, P, sp, [])
+        check_seeded_pipeline(ctx, sp)
+        return
+    if history is not None:
+        check_history(ctx, P, only=history)
+        return
     if cfgs is None:
         cfgs = make_cfgs(ctx)
     prepared = [prepare(P, cfg, ctx.tier) for cfg in cfgs]
     check_values(ctx, prepared)
     check_load(ctx, prepared)
     check_reject(ctx, P, prepared)
+    if full or 'oracle.seeded-pipeline' in force or 'sample.moments' in force:
+        sp = [prepare_stress(P, sc) for sc in stress_cfgs(ctx)] if full else []
+        check_seeded_pipeline(ctx, prepared + sp)
+        check_moments(ctx, P, sp, prepared)
+    if full:
+        check_history(ctx, P)
     if (ctx.tier == 'thorough' and full) or 'sample.bootstraps' in force:
         check_bootstraps(ctx, P, prepared)
     if (ctx.tier == 'thorough' and full) or 'sample.statistics' in force:
@@ -724,7 +1399,12 @@ def run(ctx, cfgs=None, force=()):
 
 
 def replay(ctx, rp):
-    cfg = (rp.get('case') or {}).get('cfg')
+    case = rp.get('case') or {}
+    if case.get('stress'):
+        return run(ctx, stress=[case['stress']])
+    if case.get('history'):
+        return run(ctx, history=case['history'])
+    cfg = case.get('cfg')
     if not cfg:
         return run(ctx)
     return run(ctx, cfgs=[cfg], force=(rp.get('stream'),))
